@@ -42,6 +42,7 @@ LARR = z3.ArraySort(z3.IntSort(), ValS)
 c03_lmem = z3.Function("c03_lmem", z3.IntSort(), LARR, ValS, z3.BoolSort())
 
 PB_BASE = "gemseo.algos._progress_bars.base_progress_bar.BaseProgressBar"
+TESTER_CLASSES = ("gemseo.algos.stop_criteria.ObjectiveToleranceTester", "gemseo.algos.stop_criteria.DesignToleranceTester")
 VARIANT = "c03"  # contract variant holding the assumed summaries applied by call_repo_model
 
 
@@ -147,11 +148,34 @@ class C03Models:
         if (node.body or node.orelse) and _log_only(node.body, set()) and _log_only(node.orelse, set()):
             ex.assumed.add("an `if` whose arms only log (LOGGER.* calls, MultiLineString message construction) is skipped without evaluating its condition (DESIGN §2.2)")
             return True
+        if not node.orelse and len(node.body) == 1 and isinstance(node.body[0], ast.Assign) and len(node.body[0].targets) == 1:
+            tgt, val = node.body[0].targets[0], node.body[0].value
+            if isinstance(tgt, ast.Attribute) and isinstance(tgt.value, ast.Name) and isinstance(val, ast.Name):
+                # `if <reads only>: obj.attr = local`: afterwards obj.attr holds its old value or the local's - over-approximated by an arbitrary
+                # value of the field's declared type (no fork)
+                obj = ex.frame.env.get(tgt.value.id)
+                o = ex.st.heap.get(obj.id) if isinstance(obj, Ref) else None
+                attr = ex.mangled(tgt.attr)
+                if isinstance(o, PyObj) and isinstance(o.fields.get(attr), SV):
+                    cur = o.fields[attr]
+                    o.fields[attr] = cur.ty.project(ex.st, ex.st.fresh_const(f"maybe_{attr}", cur.ty.sort()))
+                    ex.assumed.add("`if c: obj.attr = v` with a scalar field: the field is over-approximated by an arbitrary value (no fork)")
+                    return True
         name = _string_choice(node)
         if name is not None:
             # either string literal: an arbitrary string over-approximates the choice (the condition only reads names / attributes)
             ex.frame.env[name] = SV(ex.st.fresh_const("strchoice", StrS), TStr)
             return True
+        return NotImplemented
+
+    def ifexp(self, ex, node):
+        """`OneLineLogging(..) if <simple condition> else nullcontext()`: both are null contexts here, no fork."""
+        def null_ctx(e):
+            return isinstance(e, ast.Call) and isinstance(e.func, ast.Name) and e.func.id in ("OneLineLogging", "nullcontext")
+
+        if _on(ex) and _simple_test(node.test) and null_ctx(node.body) and null_ctx(node.orelse):
+            ex.assumed.add("OneLineLogging(...) is a null context (it only swaps logging handlers)")
+            return BuiltinV("nullcontext")
         return NotImplemented
 
     # ------------------------------------------------------------------ lists of opaque values: membership as a function symbol
@@ -222,6 +246,16 @@ class C03Models:
         del short
         from . import source as S
 
+        if cv.qualname in TESTER_CLASSES and not args:
+            # dataclass constructor (generated __init__): the keyword arguments become the fields, the others take their class-level defaults
+            o = PyObj(cv.qualname, {})
+            defaults = {"absolute": 0.0, "relative": 0.0, "n_last_iterations": 3}
+            for k, t in C.class_schema(cv.qualname).items():
+                o.fields[k] = ex.coerce(kwargs.get(k, defaults[k]), t)
+            if set(kwargs) - set(o.fields):
+                raise Unsupported(f"dataclass model of {cv.qualname}: unexpected field {set(kwargs) - set(o.fields)}")
+            ex.assumed.add("tolerance testers are dataclasses: the generated __init__ stores its keyword arguments (defaults 0.0, 0.0, 3)")
+            return ex.st.alloc(o)
         if S.is_subclass(cv.qualname, PB_BASE):
             # progress bars only read the problem and touch their own state (DESIGN §2.2): an object of the abstract base class
             o = PyObj(PB_BASE, {})
